@@ -505,7 +505,9 @@ V_C16(S, e, T, aux) ==
      /\ e.tx.a.vamm \in Vs(S) /\ e.tx.s \in Traders
   THEN LET v == e.tx.a.vamm
            p == PosOf(S, v, e.tx.s)
-           restricted == aux.liqblk[v] = S.blk.h /\ p.exists /\ p.blk = S.blk.h
+           \* "already updated in that block": the owner's own last successful trade on the position
+           \* (ghost, from the history) -- not the stored stamp the implementation consults
+           restricted == aux.liqblk[v] = S.blk.h /\ p.exists /\ aux.upd[v][e.tx.s] = S.blk.h
        IN IF restricted THEN Tag(~e.res.ok /\ Unchanged(e), "C16.must_fail")
           ELSE Tag(e.res.err # "restriction", "C16.no_restrict")
   ELSE {}
@@ -514,8 +516,9 @@ A_C16(S, e, T, aux) ==
      /\ e.tx.a.vamm \in Vs(S) /\ e.tx.s \in Traders
   THEN LET v == e.tx.a.vamm
            p == PosOf(S, v, e.tx.s)
-       IN (IF aux.liqblk[v] = S.blk.h /\ p.exists /\ p.blk = S.blk.h THEN {"restricted"} ELSE {})
-          \cup (IF aux.liqblk[v] = S.blk.h /\ ~(p.exists /\ p.blk = S.blk.h) THEN {"bystander_same_block"} ELSE {})
+       IN (IF aux.liqblk[v] = S.blk.h /\ p.exists /\ aux.upd[v][e.tx.s] = S.blk.h THEN {"restricted"} ELSE {})
+          \cup (IF aux.liqblk[v] = S.blk.h /\ ~(p.exists /\ aux.upd[v][e.tx.s] = S.blk.h) THEN {"bystander_same_block"} ELSE {})
+          \cup (IF aux.liqblk[v] = S.blk.h /\ p.exists /\ aux.upd[v][e.tx.s] = S.blk.h /\ Abs(PosOf(T, v, e.tx.s).size) < Abs(p.size) THEN {"reduced_then_restricted"} ELSE {})
           \cup (IF aux.liqblk[v] # 0 /\ aux.liqblk[v] < S.blk.h THEN {"later_block"} ELSE {})
   ELSE IF EngOp(e, "liquidate") /\ e.res.ok THEN {"liquidation"} ELSE {}
 
@@ -581,11 +584,12 @@ V_C18(S, e, T, aux) ==
    ELSE {})
   \cup
   (IF e.kind = "query" /\ e.tx.c = "feed" /\ S.feed.kind = "real" /\ e.res.ok
-   THEN LET rs == Rounds(S.feed, e.tx.a.key)
-            real == {i \in 1..Len(rs) : rs[i].id >= 1}
-        IN CASE e.tx.m = "get_price" -> Tag(e.res.val.price = Last(rs).price, "C18.feed_latest")
+   THEN LET rs == aux.subs[e.tx.a.key]      \* every accepted submission, from the history (ghost)
+            real == 1..Len(rs)
+        IN IF rs = <<>> THEN {} ELSE
+           CASE e.tx.m = "get_price" -> Tag(e.res.val.price = Last(rs).price, "C18.feed_latest")
              [] e.tx.m = "get_previous_price" ->
-                  Tag(Len(rs) - e.tx.a.n >= 1 /\ e.res.val.price = rs[Len(rs) - e.tx.a.n].price, "C18.feed_previous")
+                  Tag(Len(rs) - e.tx.a.n < 1 \/ e.res.val.price = rs[Len(rs) - e.tx.a.n].price, "C18.feed_previous")
              [] e.tx.m = "get_twap_price" ->
                   LET base == S.blk.t - e.tx.a.interval
                       idx == {i \in real : i = Len(rs) \/ rs[i + 1].t > base}
@@ -664,7 +668,10 @@ AuxInit(W) ==
   [y0     |-> [v \in Vs(W) |-> W.vamm[v].st.y + W.vamm[v].st.total],
    seen   |-> [v \in Vs(W) |-> {<<W.vamm[v].st.total, W.vamm[v].st.x>>}],
    liqblk |-> [v \in Vs(W) |-> 0],
-   lastq  |-> [ok |-> FALSE, c |-> "", q |-> "", dir |-> "", amount |-> 0, val |-> 0]]
+   lastq  |-> [ok |-> FALSE, c |-> "", q |-> "", dir |-> "", amount |-> 0, val |-> 0],
+   upd    |-> [v \in Vs(W) |-> [t \in Traders |-> IF W.eng.pos[v][t].exists THEN W.eng.pos[v][t].blk ELSE 0]],
+   subs   |-> [k \in DOMAIN W.feed.rounds |->
+                 LET rs == W.feed.rounds[k] IN SelectSeq(rs, LAMBDA r : r.id >= 1)]]
 
 AuxNext(aux, S, e, T) ==
   [y0     |-> aux.y0,
@@ -679,5 +686,15 @@ AuxNext(aux, S, e, T) ==
                                THEN S.blk.h ELSE aux.liqblk[v]],
    lastq  |-> IF e.kind = "query" /\ IsVammName(e.tx.c) /\ e.tx.m \in {"input_amount", "output_amount"} /\ e.res.ok
               THEN [ok |-> TRUE, c |-> e.tx.c, q |-> e.tx.m, dir |-> e.tx.a.dir, amount |-> e.tx.a.amount, val |-> e.res.val]
-              ELSE [ok |-> FALSE, c |-> "", q |-> "", dir |-> "", amount |-> 0, val |-> 0]]
+              ELSE [ok |-> FALSE, c |-> "", q |-> "", dir |-> "", amount |-> 0, val |-> 0],
+   upd    |-> [v \in Vs(T) |-> [t \in Traders |->
+                 IF e.kind = "tx" /\ e.tx.c = "engine" /\ e.res.ok /\ e.tx.s = t
+                    /\ e.tx.m \in {"open_position", "close_position"} /\ e.tx.a.vamm = v
+                 THEN (IF T.eng.pos[v][t].exists THEN S.blk.h ELSE 0)
+                 ELSE IF EngOp(e, "liquidate") /\ e.res.ok /\ e.tx.a.vamm = v /\ e.tx.a.trader = t /\ ~T.eng.pos[v][t].exists
+                 THEN 0
+                 ELSE aux.upd[v][t]]],
+   subs   |-> IF Op(e, "feed", "append_price") /\ e.res.ok /\ S.feed.kind = "real" /\ e.tx.a.key \in DOMAIN aux.subs
+              THEN [aux.subs EXCEPT ![e.tx.a.key] = Append(@, [id |-> Len(@) + 1, price |-> e.tx.a.price, t |-> e.tx.a.t])]
+              ELSE aux.subs]
 =============================================================================
